@@ -711,6 +711,8 @@ package queue
 //@ func (*SQLiteStore).resolveSingleLeaseConflictTx
 //@   requires conn != nil && s != nil && txOpen
 //@   modifies durable, txOpen, txPending
+//@   calls database/sql.(*Conn).QueryRowContext requires [C04:the_conflicting_lease_is_looked_up_by_its_id] arg2 == "\nSELECT id, state, lease_until\nFROM queue_items\nWHERE lease_id = ?\nLIMIT 1;\n" && nvarargs == 1 && vararg0 == leaseID
+//@   ensures [C04:a_live_or_foreign_lease_is_left_alone] result1 == nil && !result0 ==> txPending == old(txPending)
 //@   ensures txOpen && durable == old(durable) && txPending >= old(txPending)
 
 //@ func (*SQLiteStore).resolveLeaseMutationConflictTx$1
